@@ -113,6 +113,15 @@ CHECKS = {
             "(independent typed comparison in python) must be a candidate whenever the structure answers.",
             "trusts the repo's ColumnReader for zone membership by key; a structure that declines (None) is not judged",
             "DESIGN.md §4 C08"),
+    "C17": ("exploration",
+            "runtime monitoring: generated-input fuzzing of the public parse entry point in child processes (panic hook, abort and timeout attribution) + AST round-trip + dispatch against a live engine",
+            "Random strings, grammar-derived commands of every family and 14 mutators (number widening, nesting to depth 20000, unterminated "
+            "strings/JSON, non-ASCII, keywords as identifiers, ...) are parsed by parse_command in sharded child processes; generated expression "
+            "trees printed with minimal parentheses, random keyword case and redundant parentheses must parse back to the same tree and two "
+            "spellings of one command to equal Commands; every parsed command is dispatched against a live engine and must be answered.",
+            "termination judged as bounded progress (120 s per batch, 60 s per isolated input, 3 confirmations); overflow checks are not enabled "
+            "in the engine profile (flow/metrics.rs statistics underflow by design)",
+            "DESIGN.md §4 C17"),
 }
 
 PENDING_REASON = "check not built yet in this session (see DESIGN.md §10 for the order); no claim is made"
